@@ -128,7 +128,15 @@ def gen_static_module(rng):
         body = []  # nothing but the header
     else:
         body = gen_def(rng, 0)  # a def is the first statement after the header
-    src = "\n".join(head + body) + "\n"
+    lines = head + body
+    if rng.random() < 0.25 and lines:
+        # characters that str.splitlines() treats as line ends but Python source does not: a form feed on a line of
+        # its own (the classic page break), and FS / NEL / LS / PS inside string literals and comments
+        k = rng.randint(0, len(lines))
+        extra = rng.choice(["\x0c", "\x0c", "# page\x0cbreak in a comment", "_jtv_odd = 'a\x1cb\x85c\u2028d\u2029e\x0bf'", "# nel\x85 and ls\u2028 in a comment"])
+        if all(not (l.startswith(" ") or l.startswith("\t")) for l in lines[k : k + 1]) and not (k > 0 and lines[k - 1].rstrip().endswith((":", "\\", ","))) and not (k > 0 and lines[k - 1].startswith("@")):
+            lines = lines[:k] + [extra] + lines[k:]
+    src = "\n".join(lines) + "\n"
     if rng.random() < 0.1:
         src = src.replace("    ", "\t")
     return src
